@@ -356,6 +356,18 @@ void TaskScheduler::WaitForTasks( uint32_t threadNum )
 
 void TaskScheduler::WakeThreads(  int32_t maxToWake_ )
 {
+    // The new task was published with a plain store to the pipe's write index
+    // and m_NumThreadsWaiting is read below with a plain load. Without a full
+    // barrier the CPU may satisfy that load before the store is visible
+    // (store->load reordering, x86 included): a worker that has just
+    // announced itself as waiting then still sees an empty pipe and goes to
+    // sleep, while we see no waiter and post nothing - the task is stranded
+    // until some later, unrelated wake-up.
+#ifdef _WIN32
+    MemoryBarrier();
+#else
+    __sync_synchronize();
+#endif
     if( maxToWake_ > 0 && maxToWake_  < m_NumThreadsWaiting )
     {
         SemaphoreSignal( m_NewTaskSemaphore, maxToWake_ );
